@@ -6,7 +6,7 @@ use crate::hal::{Effect, Src};
 use crate::json::J;
 use crate::ops::{Op, Rect, Stream};
 use crate::prng::Rng;
-use crate::rig::{expected_variant, CallResult, DispCfg, InitResult, ModelId, Tr, BUILTIN};
+use crate::rig::{expected_variant, CallResult, DispCfg, InitResult, ModelId, Tr};
 use crate::session::{Opened, Session};
 use crate::spec::Ori;
 use crate::Args;
@@ -35,13 +35,13 @@ pub fn c12(args: &Args) -> Acc {
     // ---------------------------------------------------------- init of every model
     if args.want_stage("init") {
         let mut combos: Vec<DispCfg> = Vec::new();
-        for m in BUILTIN {
+        for m in crate::rig::builtin() {
             for t in [Tr::Spi, Tr::P8, Tr::P16, Tr::L1S] {
                 if t.type_checks(m.bits()) && m.supports(t.kind()) {
                     for rst in [true, false] {
                         let mut c = DispCfg::full(m, t);
                         c.rst = rst;
-                        c.ori = Ori(((m as u8) + rst as u8) % 8);
+                        c.ori = Ori(((m.ord() as u8) + rst as u8) % 8);
                         c.bgr = rst;
                         c.invert = !rst;
                         combos.push(c);
@@ -117,6 +117,58 @@ pub fn c12(args: &Args) -> Acc {
         total.merge(acc);
     }
     // ---------------------------------------------------------- display calls
+    // tens of thousands of failing calls on one display / interface object: every one is
+    // reported (nothing that counts failures may overflow), and the display works afterwards
+    if args.want_stage("error-storm") && !crate::small() {
+        let combos: Vec<(Tr, Op)> = vec![
+            (Tr::P8, Op::ScrollOffset(7)),
+            (Tr::P16, Op::SetPixel { x: 1, y: 1, c: 0x1357 }),
+            (Tr::Spi, Op::SetOrientation(Ori(3))),
+            (Tr::L1S, Op::Tearing(1)),
+            (Tr::Spi, Op::FillSolid { rect: Rect { x: 0, y: 0, w: 2, h: 2 }, c: 0x2468 }),
+            (Tr::P8, Op::Sleep),
+        ];
+        let acc = par_cases(combos.len() as u64, args.threads, args.case, |idx, a| {
+            let (tr, op) = combos[idx as usize].clone();
+            let mut cfg = DispCfg::full(ModelId::ST7789, tr);
+            cfg.w = 8;
+            cfg.h = 8;
+            cfg.spi_buf = 16;
+            let cj = || J::obj().with("config", cfg.to_json()).with("call", op.to_json());
+            let Opened::Ready(mut s) = Session::open(&cfg) else { return };
+            let storm = if args.quick() { 65_540u64 } else { 131_080 };
+            a.case(&format!("error-storm/{}/{}", tr.name(), op.name()), true);
+            for i in 0..storm {
+                // the first low-level operation of the call fails
+                let r = s.step_with(&op, Some(0));
+                match &r.result {
+                    CallResult::Err(_) => {}
+                    CallResult::Panic { msg, loc } => {
+                        a.violate("error-storm", idx, format!("error-storm/{}/{}/panic@{}", op.name(), tr.name(), loc), format!("failing call number {}: {}", i + 1, msg), cj().with("failing_calls_before", i));
+                        return;
+                    }
+                    other => {
+                        a.violate("error-storm", idx, format!("error-storm/{}/{}/not-reported", op.name(), tr.name()), format!("failing call number {} returned {:?}", i + 1, other), cj().with("failing_calls_before", i));
+                        return;
+                    }
+                }
+                a.count("error_storm_failures_reported", 1);
+            }
+            // the fault has cleared
+            let mut rec = vec![Op::Wake, op.clone(), Op::Clear { c: 0x4321 }, Op::SetPixel { x: 2, y: 3, c: 0x0FF0 }];
+            if matches!(op, Op::Sleep) {
+                rec.insert(2, Op::Wake);
+            }
+            for rop in &rec {
+                let rr = s.step(rop);
+                if let Some(fd) = rr.findings.first() {
+                    a.violate("error-storm", idx, format!("error-storm/{}/{}/recovery/{}/{}", op.name(), tr.name(), rop.name(), fd.kind()), format!("after {} failed calls: {}", storm, fd.describe()), cj());
+                    return;
+                }
+            }
+        });
+        total.merge(acc);
+    }
     if args.want_stage("calls") {
         let n = args.n(6000, 60_000);
         let effs = effects(args);
@@ -141,7 +193,8 @@ pub fn c12(args: &Args) -> Acc {
             let (lw, lh) = if cfg.ori.rot() & 1 == 0 { (cfg.w as i64, cfg.h as i64) } else { (cfg.h as i64, cfg.w as i64) };
             let mut tags = TagGen::new(&mut rng);
             let new_ori = Ori(rng.below(8) as u8);
-            let op = match rng.below(12) {
+            let op = match rng.below(13) {
+                12 => Op::TestImage,
                 0 => Op::SetPixel { x: rng.range(0, lw - 1) as u16, y: rng.range(0, lh - 1) as u16, c: tags.one() },
                 1 => {
                     let r = gen::gen_rect(&mut rng, lw, lh, Mode::InBounds, 64);
@@ -206,6 +259,7 @@ pub fn c12(args: &Args) -> Acc {
                     let cj = || J::obj().with("config", cfg.to_json()).with("before", gen::prog_json(&pre)).with("call", op.to_json()).with("fail_op", k).with("of", nops).with("effect", format!("{:?}", eff));
                     a.case(&format!("{}/{:?}/{}/{:?}/{}", idx, op.name(), k, eff, cfg.tr.name()), true);
                     let Opened::Ready(mut s) = Session::open_with(&cfg, None, *eff, false) else { return };
+                    s.panel.latch_on_abort = true;
                     for p in &pre {
                         let _ = s.step(p);
                     }
@@ -263,6 +317,17 @@ pub fn c12(args: &Args) -> Acc {
                         Op::Sleep | Op::Wake | Op::ScrollRegion(..) | Op::ScrollOffset(_) | Op::Tearing(_) => true,
                         _ => false,
                     };
+                    // or, when the byte did arrive: the application gives up and restores the
+                    // orientation the display still reports - that call must reach the controller
+                    if orientation_delivered {
+                        a.count("failed_set_orientation_whose_byte_arrived", 1);
+                    }
+                    let restore_old = orientation_delivered && (k + idx) % 3 == 0;
+                    let reissue = reissue && !restore_old;
+                    if restore_old {
+                        recovery.push(Op::SetOrientation(s.rig.orientation()));
+                        a.count("failed_set_orientation_previous_orientation_restored", 1);
+                    }
                     if matches!(op, Op::SetOrientation(_)) {
                         a.count(if reissue { "failed_set_orientation_reissued" } else { "failed_set_orientation_old_orientation_checked" }, 1);
                     }
